@@ -105,7 +105,7 @@ def apply(W, step):
         W.obs.append(('err', op, type(e).__name__))
         return 'err:'+type(e).__name__
 buckets=collections.defaultdict(list)
-NPROG=int(sys.argv[2]) if len(sys.argv)>2 else 4000
+NPROG=int(__import__("os").environ.get("RECON_N", 4000))
 skipped=0; nsteps=0
 for it in range(NPROG):
     rows=rand_rows()
